@@ -46,11 +46,33 @@ Definition run_bayer (a : bayer_args) : list Z :=
   else eresult (fun '(r, g, b) => earrQ r ++ earrQ g ++ earrQ b)
                (collect_charge_bayer_channels i nw qr qg qb pat os).
 
+Definition collect_args := (imgrep QcS * Z * qerep QcS)%type.
+Definition pcollect : parser collect_args := i <- pimg ;; nw <- pZ ;; q <- pqe ;; pret (i, nw, q).
+Definition run_collect (a : collect_args) : list Z :=
+  let '(i, nw, q) := a in eresult earrQ (collect_charge i nw q).
+Definition adc_args := (arr QcS * gainrep * option Qc * bool)%type.
+Definition padc : parser adc_args := i <- parrQ ;; g <- pgain ;; s <- popt pQ ;; w <- pbool ;; pret (i, g, s, w).
+Definition run_adc (a : adc_args) : list Z :=
+  let '(i, g, s, w) := a in
+  eresult (fun '(wn, dn) => (if wn : bool then 1 else 0) :: earrZ dn) (adc i g s w).
+(* one call of a history: tag 1 = collect_charge, tag 2 = collect_charge_bayer, tag 3 = adc; parsed and answered at once *)
+Definition pcall : parser (list Z) :=
+  t <- pZ ;;
+  if t =? 1 then a <- pcollect ;; pret (run_collect a)
+  else if t =? 2 then a <- pbayer ;; pret (run_bayer a)
+  else if t =? 3 then a <- padc ;; pret (run_adc a)
+  else pfail.
+
 Definition run_c16 (inp : list Z) : list Z :=
   match inp with
   | 1 :: rest =>   (* collect_charge(img, wave, qe) *)
-    match pall (i <- pimg ;; nw <- pZ ;; q <- pqe ;; pret (i, nw, q)) rest with
-    | Some (i, nw, q) => eresult earrQ (collect_charge i nw q)
+    match pall pcollect rest with
+    | Some a => run_collect a
+    | None => emalformed end
+  | 6 :: rest =>   (* a history of collect_charge / collect_charge_bayer / adc calls sharing their argument objects:
+                      the model is a pure function, every call is answered from its own arguments *)
+    match pall (plist pcall) rest with
+    | Some l => 0 :: flat_map (fun o => Z.of_nat (length o) :: o) l
     | None => emalformed end
   | 2 :: rest =>   (* collect_charge_bayer(img, wave, qr, qg, qb, pattern, oversample, flatten) *)
     match pall pbayer rest with
@@ -62,9 +84,8 @@ Definition run_c16 (inp : list Z) : list Z :=
     | Some l => 0 :: flat_map (fun a => let o := run_bayer a in Z.of_nat (length o) :: o) l
     | None => emalformed end
   | 3 :: rest =>   (* adc(img, gain, saturation_capacity, warn_saturate) *)
-    match pall (i <- parrQ ;; g <- pgain ;; s <- popt pQ ;; w <- pbool ;; pret (i, g, s, w)) rest with
-    | Some (i, g, s, w) =>
-        eresult (fun '(wn, dn) => (if wn : bool then 1 else 0) :: earrZ dn) (adc i g s w)
+    match pall padc rest with
+    | Some a => run_adc a
     | None => emalformed end
   | 4 :: rest =>   (* format_bayer_string *)
     match pall (plist pZ) rest with
